@@ -3,6 +3,7 @@ from typing import Any
 
 from reactivex import Observable, abc
 from reactivex.disposable import CompositeDisposable, SingleAssignmentDisposable
+from reactivex.internal import synchronized
 
 
 def combine_latest_(*sources: Observable[Any]) -> Observable[tuple[Any, ...]]:
@@ -56,6 +57,8 @@ def combine_latest_(*sources: Observable[Any]) -> Observable[tuple[Any, ...]]:
             if all(is_done):
                 observer.on_completed()
 
+        on_error = synchronized(lock)(observer.on_error)
+
         subscriptions = [SingleAssignmentDisposable() for _ in range(n)]
 
         def func(i: int) -> None:
@@ -69,7 +72,7 @@ def combine_latest_(*sources: Observable[Any]) -> Observable[tuple[Any, ...]]:
                     done(i)
 
             subscriptions[i].disposable = sources[i].subscribe(
-                on_next, observer.on_error, on_completed, scheduler=scheduler
+                on_next, on_error, on_completed, scheduler=scheduler
             )
 
         for idx in range(n):
